@@ -39,6 +39,15 @@ def colorAnswer (m : ColorModel) : List String → Option String
       | some L => showStack L | none => "ERR key")
   | ["lzmat"] => some (match logicalsZ (m.lat ()).toCodeData with
       | some L => showStack L | none => "ERR key")
+  -- everything that needs the (derived) qubit list, computed once: used for the large sizes
+  | ["bundle"] =>
+    let l := m.lat ()
+    let c := l.toCodeData
+    let mat := fun (o : Option (List (List Nat))) => match o with
+      | some H => showStack H | none => "ERR key"
+    some (" # ".intercalate [lat2dShowCoords l.qubits, lat2dShowCoords l.stabs, toString c.n,
+      toString c.k, lat2dShowOps l.logX, lat2dShowOps l.logZ, mat (stabilizerMatrix c),
+      mat (logicalsX c), mat (logicalsZ c)])
   | ["n"] => some (toString (m.lat ()).toCodeData.n)
   | ["k"] => some (toString (m.lat ()).toCodeData.k)
   | _ => none
